@@ -167,6 +167,16 @@ func c09Case(w *rt.W, text string, r date.Rule, allPaths bool) int {
 }
 
 func runC09(c *rt.Ctx) {
+	callerEditsReturnedErrors(c, map[string]func() error{
+		"date.DefaultParser[string](20200101, RuleDisableBasic)": func() error { _, err := date.DefaultParser("20200101", date.RuleDisableBasic); return err },
+		"date.DefaultParser[[]byte](20200101, RuleDisableBasic)": func() error { _, err := date.DefaultParser([]byte("20200101"), date.RuleDisableBasic); return err },
+		"date.DefaultParser[string](2021-02-30, 0)":              func() error { _, err := date.DefaultParser("2021-02-30", 0); return err },
+		"date.DefaultParser[string](2021-13-01, 0)":              func() error { _, err := date.DefaultParser("2021-13-01", 0); return err },
+		"date.DefaultParser[string](not a date, 0)":              func() error { _, err := date.DefaultParser("not a date", 0); return err },
+		"date.DefaultParser[string](40 bytes, 0)":                func() error { _, err := date.DefaultParser("2021-01-01                              ", 0); return err },
+		"date.Parser variable(20200101, RuleDisableBasic)":       func() error { _, err := date.Parser([]byte("20200101"), date.RuleDisableBasic); return err },
+		"Date.UnmarshalText(2021-02-29)":                         func() error { var d date.Date; return d.UnmarshalText([]byte("2021-02-29")) },
+	})
 	L := c.Pick(9, 11)
 	c.SetRule(fmt.Sprintf("(a) 60 years x MM 00-99 x DD 00-99 x 4 separator layouts, enumerated once each, x RuleDisableBasic on/off x MaxInputLength in {0,8,10,15} x {string, []byte, UnmarshalText}; (b) every string over {0,1,2,3,9,-} of length 0..%d (exhaustive) under the default configuration; (c) every single-byte substitution (256 values), insertion and deletion of seeded valid texts under all eight configurations. ", L) +
 		"distinct_nontrivial counts distinct (text, rule, limit) cases whose text names a non-existent day in a well-formed layout, plus distinct accepted texts, each enumerated once (family (a) and (b) only)")
